@@ -43,16 +43,23 @@ def check_pair(t_, p, q, num, den, deg, cls):
     for name in QM:
         fn = getattr(MT, name)
         for variant, call in (("single", lambda: fn(fp.copy(), fq.copy())), ("swapped", lambda: fn(fq.copy(), fp.copy())),
-                              ("negated", lambda: fn(-fp, fq.copy())), ("N-row", lambda: fn(np.array([filler, fp]), np.array([filler, fq]))[1])):
+                              ("negated", lambda: fn(-fp, fq.copy())), ("N-row", lambda: fn(np.array([filler, fp]), np.array([filler, fq]))[1]),
+                              # square arrays: as many rows as a quaternion has components (and one less), where shape-based dispatch is ambiguous
+                              ("4-row", lambda: fn(np.array([filler, fp, filler, fq]), np.array([filler, fq, fp, fp]))[1]),
+                              ("3-row", lambda: fn(np.array([filler, filler, fp]), np.array([fp, filler, fq]))[2])):
             t_.calls += 1
             o = core.outcome(call)
             if o[0] != "ok":
                 t_.fail("C18|%s|%s|raises-%s|%s" % (name, variant, o[1], cls), dict(case, err=o[2]))
                 continue
+            if np.ndim(o[1]) != 0:
+                t_.fail("C18|%s|%s|not-one-distance-per-row|%s" % (name, variant, cls), dict(case, got=np.asarray(o[1])))
+                continue
             v = float(o[1])
             if not (abs(v - want[name]) <= tol_of(name, t) and v >= 0):
                 t_.fail("C18|%s|%s|not-closed-form|%s" % (name, variant, cls), dict(case, got=v, want=want[name]))
     for name, call in (("chordal", lambda: MT.chordal(Rp, Rq)), ("chordal[N-row]", lambda: MT.chordal(np.array([Rq, Rp]), np.array([Rq, Rq]))[1]),
+                       ("chordal[3-row]", lambda: MT.chordal(np.array([Rq, Rq, Rp]), np.array([Rp, Rq, Rq]))[2]),
                        ("chordal[swapped]", lambda: MT.chordal(Rq, Rp)),
                        ("identity_deviation", lambda: MT.identity_deviation(Rp, Rq)), ("identity_deviation[swapped]", lambda: MT.identity_deviation(Rq, Rp)),
                        ("angular_distance", lambda: MT.angular_distance(Rp, Rq)), ("angular_distance[swapped]", lambda: MT.angular_distance(Rq, Rp))):
@@ -61,6 +68,9 @@ def check_pair(t_, p, q, num, den, deg, cls):
         o = core.outcome(call)
         if o[0] != "ok":
             t_.fail("C18|%s|raises-%s|%s" % (name, o[1], cls), dict(case, err=o[2]))
+            continue
+        if np.ndim(o[1]) != 0:
+            t_.fail("C18|%s|not-one-distance-per-row|%s" % (name, cls), dict(case, got=np.asarray(o[1])))
             continue
         v = float(o[1])
         if not (abs(v - want[base]) <= tol_of(base, t) and v >= 0):
